@@ -2,7 +2,7 @@
    The correspondence check evaluates [Run_FileSink.mismatches] (and [kill_mismatches], [fsize_mismatches]) with vm_compute
    and requires the result to be [].  Here that boolean verdict is given its declarative reading:
      * [accepted]: the observed history is an execution of the model FileSink.v — after every observed call the
-       acknowledgement, the listing (kinds, modes, contents in reading order), BytesWritten, LastCreated, the directory
+       acknowledgement, the listing (events without bytes erased: [vis]) (kinds, modes, contents in reading order), BytesWritten, LastCreated, the directory
        mode, the foreign files and stdout/stderr are the model's;
      * [oracles_ok]: the statements of C08 / C15 that are evaluated on the observations alone hold after every observed call;
      * [dirlog_ok]: along the directory's own event log (order of the sink's critical sections) stamps strictly increase
@@ -63,15 +63,16 @@ Qed.
 
 (* ================================================================== the model comparison of one observation *)
 (* the observation [o] made after a call is what the model state [w] (and its acknowledgement [ok]) says *)
-Definition agrees (w : world) (ok : bool) (o : sobs) : Prop :=
+(* [E]: the ids of the case's empty writes — events without bytes, erased from what the model says the files hold ([vis]) *)
+Definition agrees (E : list N) (w : world) (ok : bool) (o : sobs) : Prop :=
   ok = o_ok o /\
-  reading (files w) = obs_reading o /\
-  model_files w = o_files o /\                          (* kinds, modes and contents, file by file in reading order *)
+  vis E (reading (files w)) = obs_reading o /\
+  model_files_vis E w = o_files o /\                          (* kinds, modes and contents, file by file in reading order *)
   bw w = o_bw o /\
   (o_lc o = -1 \/ lc w = o_lc o) /\                     (* -1: LastCreated was not observed (concurrent writers) *)
   match dirmode w with Some m => m | None => 0%N end = o_dir o /\
   model_foreign w = o_foreign o /\
-  sout w = o_out o /\ serr w = o_err o.
+  vis E (sout w) = o_out o /\ vis E (serr w) = o_err o.
 
 Lemma fobs_lists_eq l1 l2 :
   eq_list (fun a b => N.eqb (fo_kind a) (fo_kind b) && eqNl (fo_data a) (fo_data b)) l1 l2 = true /\
@@ -92,14 +93,14 @@ Proof.
   split; [intros [-> ->]; reflexivity|intros H; inversion H; auto].
 Qed.
 
-Theorem check_model_nil_iff w ok o : check_model w ok o = [] <-> agrees w ok o.
+Theorem check_model_nil_iff E w ok o : check_model E w ok o = [] <-> agrees E w ok o.
 Proof.
   unfold check_model, agrees. rewrite !app_nil_iff, !ite_nil_t.
-  assert (Hf : (if eq_list (fun a b => N.eqb (fo_kind a) (fo_kind b) && eqNl (fo_data a) (fo_data b)) (model_files w) (o_files o)
-                then if eqNl (map fo_mode (model_files w)) (map fo_mode (o_files o)) then [] else [KMode] else [KFiles]) = [] <->
-               model_files w = o_files o).
+  assert (Hf : (if eq_list (fun a b => N.eqb (fo_kind a) (fo_kind b) && eqNl (fo_data a) (fo_data b)) (model_files_vis E w) (o_files o)
+                then if eqNl (map fo_mode (model_files_vis E w)) (map fo_mode (o_files o)) then [] else [KMode] else [KFiles]) = [] <->
+               model_files_vis E w = o_files o).
   { rewrite <- fobs_lists_eq.
-    destruct (eq_list _ (model_files w) (o_files o)); [|split; [discriminate|intros [H _]; discriminate]].
+    destruct (eq_list _ (model_files_vis E w) (o_files o)); [|split; [discriminate|intros [H _]; discriminate]].
     rewrite ite_nil_t. tauto. }
   rewrite Hf, eqNl_spec, Z.eqb_eq, N.eqb_eq, pair_list_eq, andb_true_iff, !eqNl_spec, orb_true_iff, !Z.eqb_eq.
   split; [intros [H1 H2]; split; [apply eqb_prop; exact H1|exact H2]|intros [H1 H2]; split; [rewrite H1; apply eqb_reflx|exact H2]].
@@ -239,21 +240,21 @@ Section Spec.
 End Spec.
 
 (* ================================================================== one case *)
-Definition ackd_next (o : op) (ok : bool) (ackd : list N) : list N :=
-  match o with Write id _ _ _ _ _ _ _ => if ok then ackd ++ [id] else ackd | _ => ackd end.
+Definition ackd_next (E : list N) (o : op) (ok : bool) (ackd : list N) : list N :=     (* empty events are not expected in the files *)
+  match o with Write id _ _ _ _ _ _ _ => if ok && negb (memN id E) then ackd ++ [id] else ackd | _ => ackd end.
 Definition nren_next (x : xop) (nren : N) : N := match x with XOp (ExtRename _) => N.succ nren | _ => nren end.
 Definition removed_next (x : xop) (removed : bool) : bool := match x with XOp _ => removed | _ => true end.
 Definition dirgone_next (x : xop) (dirgone : bool) : bool := match x with XRmDir _ => true | _ => dirgone end.
 
 Section Case.
-  Variables (c : cfg) (writers : N) (counts : list (list N)) (dm0 : option N).
+  Variables (c : cfg) (writers : N) (counts : list (list N)) (dm0 : option N) (E : list N).
 
   (* the observed history is an execution of the model from [w]: every observation is what the model says after that call *)
   Inductive accepted : world -> list (xop * option sobs) -> Prop :=
   | acc_nil : forall w, accepted w []
   | acc_unobserved : forall w x rest, accepted (xstep c w x) rest -> accepted w ((x, None) :: rest)
   | acc_observed : forall w x ob rest,
-      agrees (xstep c w x) (snd (fst (xstep3 c w x))) ob -> accepted (xstep c w x) rest -> accepted w ((x, Some ob) :: rest).
+      agrees E (xstep c w x) (snd (fst (xstep3 c w x))) ob -> accepted (xstep c w x) rest -> accepted w ((x, Some ob) :: rest).
 
   (* the observation-only statements hold after every observed call ([ackd]: what has been acknowledged so far — by the
      implementation where the call was observed, by the model where it was not) *)
@@ -261,46 +262,46 @@ Section Case.
   | ok_nil : forall removed dirgone w ackd nren, oracles_ok removed dirgone w ackd nren []
   | ok_unobserved : forall removed dirgone w ackd nren x rest,
       oracles_ok (removed_next x removed) (dirgone_next x dirgone) (xstep c w x)
-                 (ackd_next (xop_clock x) (snd (fst (xstep3 c w x))) ackd) (nren_next x nren) rest ->
+                 (ackd_next E (xop_clock x) (snd (fst (xstep3 c w x))) ackd) (nren_next x nren) rest ->
       oracles_ok removed dirgone w ackd nren ((x, None) :: rest)
   | ok_observed : forall removed dirgone w ackd nren x ob rest,
       oracle_spec c writers counts dm0 (removed_next x removed) (dirgone_next x dirgone) (xop_clock x)
-                  (ackd_next (xop_clock x) (o_ok ob) ackd) (nren_next x nren) ob ->
+                  (ackd_next E (xop_clock x) (o_ok ob) ackd) (nren_next x nren) ob ->
       oracles_ok (removed_next x removed) (dirgone_next x dirgone) (xstep c w x)
-                 (ackd_next (xop_clock x) (o_ok ob) ackd) (nren_next x nren) rest ->
+                 (ackd_next E (xop_clock x) (o_ok ob) ackd) (nren_next x nren) rest ->
       oracles_ok removed dirgone w ackd nren ((x, Some ob) :: rest).
 
   Theorem run_case_iff : forall steps div removed dirgone w ackd nren i,
-    run_case c writers counts dm0 div removed dirgone w ackd nren i steps = [] <->
+    run_case c writers counts dm0 E div removed dirgone w ackd nren i steps = [] <->
     (div = false -> accepted w steps) /\ oracles_ok removed dirgone w ackd nren steps.
   Proof.
     induction steps as [|[x ob] rest IH]; intros div removed dirgone w ackd nren i.
     - cbn [run_case]. split; [intros _; split; [intros _|]; constructor|reflexivity].
-    - cbn [run_case]. unfold xstep in *. destruct (xstep3 c w x) as [[w' ok] rot] eqn:E.
+    - cbn [run_case]. unfold xstep in *. destruct (xstep3 c w x) as [[w' ok] rot] eqn:Ex.
       fold (removed_next x removed). fold (dirgone_next x dirgone). fold (nren_next x nren).
       destruct ob as [ob|].
-      + fold (ackd_next (xop_clock x) (o_ok ob) ackd).
+      + fold (ackd_next E (xop_clock x) (o_ok ob) ackd).
         rewrite app_nil_iff, map_nil_iff, app_nil_iff, oracle_nil_iff. split.
         * intros [[Hmm Hor] Hrest]. rewrite Hmm in Hrest. cbn [nonempty] in Hrest. rewrite orb_false_r in Hrest.
           apply IH in Hrest as [Ha Ho]. split.
           -- intros Hd. subst div. apply check_model_nil_iff in Hmm. apply acc_observed.
-             ++ unfold xstep. rewrite E. exact Hmm.
-             ++ unfold xstep. rewrite E. apply Ha. reflexivity.
-          -- apply ok_observed; [exact Hor|unfold xstep; rewrite E; exact Ho].
-        * intros [Ha Ho]. inversion Ho as [| |? ? ? ? ? ? ? ? Hsp Hro]; subst. unfold xstep in *. rewrite E in *. cbn [fst snd] in *.
-          assert (Hmm : (if div then [] else check_model w' ok ob) = []).
+             ++ unfold xstep. rewrite Ex. exact Hmm.
+             ++ unfold xstep. rewrite Ex. apply Ha. reflexivity.
+          -- apply ok_observed; [exact Hor|unfold xstep; rewrite Ex; exact Ho].
+        * intros [Ha Ho]. inversion Ho as [| |? ? ? ? ? ? ? ? Hsp Hro]; subst. unfold xstep in *. rewrite Ex in *. cbn [fst snd] in *.
+          assert (Hmm : (if div then [] else check_model E w' ok ob) = []).
           { destruct div; [reflexivity|]. specialize (Ha eq_refl). inversion Ha as [| |? ? ? ? Hag Hacc]; subst.
-            unfold xstep in Hag. rewrite E in Hag. apply check_model_nil_iff. exact Hag. }
+            unfold xstep in Hag. rewrite Ex in Hag. apply check_model_nil_iff. exact Hag. }
           rewrite Hmm. cbn [nonempty]. rewrite orb_false_r. split; [split; [reflexivity|exact Hsp]|].
           apply IH. split; [|exact Hro]. intros Hd. specialize (Ha Hd). inversion Ha as [| |? ? ? ? Hag Hacc]; subst.
-          unfold xstep in Hacc. rewrite E in Hacc. exact Hacc.
-      + fold (ackd_next (xop_clock x) ok ackd). rewrite IH. split.
+          unfold xstep in Hacc. rewrite Ex in Hacc. exact Hacc.
+      + fold (ackd_next E (xop_clock x) ok ackd). rewrite IH. split.
         * intros [Ha Ho]. split.
-          -- intros Hd. apply acc_unobserved. unfold xstep. rewrite E. apply Ha. exact Hd.
-          -- apply ok_unobserved. unfold xstep. rewrite E. exact Ho.
-        * intros [Ha Ho]. inversion Ho as [|? ? ? ? ? ? ? Hro|]; subst. unfold xstep in Hro. rewrite E in Hro. cbn [fst snd] in Hro.
+          -- intros Hd. apply acc_unobserved. unfold xstep. rewrite Ex. apply Ha. exact Hd.
+          -- apply ok_unobserved. unfold xstep. rewrite Ex. exact Ho.
+        * intros [Ha Ho]. inversion Ho as [|? ? ? ? ? ? ? Hro|]; subst. unfold xstep in Hro. rewrite Ex in Hro. cbn [fst snd] in Hro.
           split; [|exact Hro]. intros Hd. specialize (Ha Hd). inversion Ha as [|? ? ? Hacc|]; subst.
-          unfold xstep in Hacc. rewrite E in Hacc. exact Hacc.
+          unfold xstep in Hacc. rewrite Ex in Hacc. exact Hacc.
   Qed.
 End Case.
 
@@ -358,8 +359,8 @@ Qed.
 (* ================================================================== all sequential / concurrent cases of a shard *)
 Definition case_ok (k : fcase) : Prop :=
   dirlog_ok (c_dirlog k) /\
-  (c_model k = true -> accepted (c_cfg k) (w_init (c_fids k) (c_dm k) (c_k0 k)) (c_steps k)) /\
-  oracles_ok (c_cfg k) (c_writers k) (c_counts k) (c_dm k) false false (w_init (c_fids k) (c_dm k) (c_k0 k)) [] 0%N (c_steps k).
+  (c_model k = true -> accepted (c_cfg k) (empties_of (c_steps k)) (w_init (c_fids k) (c_dm k) (c_k0 k)) (c_steps k)) /\
+  oracles_ok (c_cfg k) (c_writers k) (c_counts k) (c_dm k) (empties_of (c_steps k)) false false (w_init (c_fids k) (c_dm k) (c_k0 k)) [] 0%N (c_steps k).
 Theorem mismatches_nil_iff : forall cs, mismatches cs = [] <-> Forall case_ok cs.
 Proof.
   induction cs as [|k cs IH]; [split; [constructor|reflexivity]|].
@@ -465,11 +466,11 @@ Print Assumptions fsize_mismatches_nil_iff.
 (* ================================================================== what an accepted history gives *)
 (* the last observation of an accepted history is what the model says after running the history's operations *)
 Definition xrun (c : cfg) (w : world) (steps : list (xop * option sobs)) : world := fold_left (xstep c) (map fst steps) w.
-Theorem accepted_last_observation : forall c steps w x ob,
-  accepted c w (steps ++ [(x, Some ob)]) ->
-  agrees (xstep c (xrun c w steps) x) (snd (fst (xstep3 c (xrun c w steps) x))) ob.
+Theorem accepted_last_observation : forall c E steps w x ob,
+  accepted c E w (steps ++ [(x, Some ob)]) ->
+  agrees E (xstep c (xrun c w steps) x) (snd (fst (xstep3 c (xrun c w steps) x))) ob.
 Proof.
-  intros c. induction steps as [|[x1 o1] rest IH]; intros w x ob Ha; cbn [app] in Ha.
+  intros c E. induction steps as [|[x1 o1] rest IH]; intros w x ob Ha; cbn [app] in Ha.
   - inversion Ha; subst. assumption.
   - unfold xrun. cbn [map fst fold_left]. apply IH. inversion Ha; subst; assumption.
 Qed.
@@ -482,15 +483,15 @@ From Verif Require Import FileSinkProofs.
 Lemma xrun_plain c (l : list (op * option sobs)) : forall w,
   fold_left (xstep c) (map (fun x => XOp (fst x)) l) w = fold_left (step c) (map fst l) w.
 Proof. induction l as [|p t IH]; intros w; cbn [map fold_left]; [reflexivity|]. rewrite <- IH. reflexivity. Qed.
-Theorem observed_reading_is_acked_suffix : forall c fids dm k0 (l : list (op * option sobs)) o ob,
+Theorem observed_reading_is_acked_suffix : forall c E fids dm k0 (l : list (op * option sobs)) o ob,
   special c = false -> fault_free (map fst l ++ [o]) -> clock_ok k0 (map fst l ++ [o]) ->
-  accepted c (w_init fids dm k0) (map (fun p => (XOp (fst p), snd p)) l ++ [(XOp o, Some ob)]) ->
-  exists k, obs_reading ob = skipn k (acked (run c fids dm k0 (map fst l ++ [o]))).
+  accepted c E (w_init fids dm k0) (map (fun p => (XOp (fst p), snd p)) l ++ [(XOp o, Some ob)]) ->
+  exists k, obs_reading ob = vis E (skipn k (acked (run c fids dm k0 (map fst l ++ [o])))).
 Proof.
-  intros c fids dm k0 l o ob Hsp Hff Hclk Ha. apply accepted_last_observation in Ha. destruct Ha as [_ [Hr _]].
-  assert (E : xstep c (xrun c (w_init fids dm k0) (map (fun p => (XOp (fst p), snd p)) l)) (XOp o) = run c fids dm k0 (map fst l ++ [o])).
+  intros c E fids dm k0 l o ob Hsp Hff Hclk Ha. apply accepted_last_observation in Ha. destruct Ha as [_ [Hr _]].
+  assert (Ew : xstep c (xrun c (w_init fids dm k0) (map (fun p => (XOp (fst p), snd p)) l)) (XOp o) = run c fids dm k0 (map fst l ++ [o])).
   { unfold run, run_from, xrun. rewrite fold_left_app. cbn [fold_left]. unfold xstep at 1. cbn [xstep3]. fold (step c). f_equal.
     rewrite map_map. cbn [fst]. rewrite xrun_plain. reflexivity. }
-  rewrite E in Hr. rewrite <- Hr. apply acked_suffix; assumption.
+  rewrite Ew in Hr. rewrite <- Hr. destruct (acked_suffix c fids dm k0 (map fst l ++ [o]) Hsp Hff Hclk) as [k Hk]. exists k. rewrite Hk. reflexivity.
 Qed.
 Print Assumptions observed_reading_is_acked_suffix.
